@@ -68,6 +68,7 @@ def _make(vc, nf=2, ns=2, nd=2, havoc_extra=True, registered=True, targets=True)
     if targets:
         d["target_B"] = vc.array("tB", (2, nf))
         d["B"] = vc.array("Breg", (2, nf))
+        d["W"] = vc.array("Wreg", (2, nf))  # weights registered with earlier targets: arbitrary, NOT the receptor weights w
     if havoc_extra:
         d["_cache_hull"] = "stale-cache-token"   # anything non-view must never be read
     return est
@@ -269,7 +270,7 @@ def mutator_frames(vc, cfg):
         return
     after = _snap(est)
     vc.prove(f"{name}: writes only {sorted(allowed)}", writes <= allowed and (set(after) - set(before)) <= allowed, detail=f"writes {sorted(writes)}")
-    vc.prove(f"{name}: writes all of its fields", allowed <= (writes | {"W"} if name == "register_targets(default W)" else writes), detail=f"writes {sorted(writes)}")
+    vc.prove(f"{name}: writes all of its fields", allowed <= writes, detail=f"writes {sorted(writes)}")
     for k in sorted(before):
         if k not in allowed:
             vc.prove(f"{name}: attribute {k} unchanged", _same(vc, before[k], after.get(k)), kind="frame")
